@@ -20,6 +20,8 @@ pub fn scenario(tier: &str) -> DistScn {
         pre_epochs: 1,
         then: vec![DAct::Bond { user: BOB.into(), amount: 500 }, DAct::Inflow { amount: 1_000_000 }, DAct::Epoch],
     });
+    // fees on the scale of an 18-decimals distribution asset: one epoch's inflow exceeds 2^64 base units
+    roots.push(DRoot { label: "grace2/growth0/1epoch+inflow-above-2^64".into(), grace: 2, growth_rate: Decimal::zero(), pre_epochs: 1, then: vec![DAct::BigInflow] });
     if tier != "quick" {
         roots.push(DRoot { label: "grace3/growth0/3epochs".into(), grace: 3, growth_rate: Decimal::zero(), pre_epochs: 3, then: vec![] });
         roots.push(DRoot { label: "grace1/growth1/1epoch".into(), grace: 1, growth_rate: Decimal::one(), pre_epochs: 1, then: vec![] });
